@@ -439,7 +439,7 @@ func main() {
 	fmt.Fprintf(os.Stderr, "sequential part: %.1fs\n", time.Since(t0).Seconds())
 
 	// (1)-(4) concurrent histories in lanes
-	n := run.Pick(3000, 60000)
+	n := run.Pick(6000, 100000)
 	if *flagN > 0 {
 		n = *flagN
 	}
@@ -459,7 +459,6 @@ func main() {
 	if err != nil {
 		run.Fatal("%v", err)
 	}
-	defer os.RemoveAll(tmp)
 	type child struct {
 		cmd  *exec.Cmd
 		out  string
@@ -495,6 +494,7 @@ func main() {
 					map[string]any{"kind": "race", "report": tail(k.errb.String(), 6000)})
 				continue
 			}
+			os.RemoveAll(tmp)
 			run.Fatal("lane %d ended without a result: %v", l, err)
 		}
 		os.Stderr.Write(k.errb.Bytes())
@@ -504,6 +504,7 @@ func main() {
 		}
 		evals += merge(&res, inter)
 	}
+	os.RemoveAll(tmp) // not deferred: Finish / Fatal leave through os.Exit
 	run.Count("distinct-interleavings(yield-point-orderings)", int64(len(inter)))
 	raceLogs(racePrefix)
 	if ownRaceDir != "" {
